@@ -21,29 +21,27 @@ def _cand(name, args, v, kwargs=None):
 
 
 def text_with_holes(ex, seed: str, positions, k=1, name="h", allowed=None, insert=False):
-    """seed text with k symbolic characters substituted (or inserted) at each of `positions`"""
-    elems = list(seed)
+    """seed text with k symbolic characters substituted for seed[p:p+k] (or inserted before seed[p]) at each p in positions"""
+    pos = sorted(set(positions))
     out = []
-    pos = set(positions)
     j = 0
     i = 0
-    while i < len(elems) or (insert and i in pos):
+    n = len(seed)
+    while i <= n:
         if i in pos:
             for _ in range(k):
                 out.append(chars.SC(ex.fd(f"{name}{j}", chars.KC, allowed)))
                 j += 1
-            pos.discard(i)
             if not insert:
                 i += k
-            else:
-                if i >= len(elems):
-                    break
-                out.append(elems[i])
-                i += 1
+                continue
+            pos = [q for q in pos if q != i]
+            if i < n:
+                out.append(seed[i])
+            i += 1
             continue
-        if i >= len(elems):
-            break
-        out.append(elems[i])
+        if i < n:
+            out.append(seed[i])
         i += 1
     return SymStr(out).simp()
 
